@@ -48,13 +48,25 @@ Compare(pre, doc, d) ==
       ke == Max(doc.st.ne, d.ne) - pre.ne
       Wp == (pre.np + 1)..(pre.np + kp)
       We == (pre.ne + 1)..(pre.ne + ke)
-      RetPts(sg) == /\ Len(doc.ret) = Len(d.ret)
-                    /\ \A i \in DOMAIN d.ret : /\ d.ret[i].k = doc.ret[i].k
-                                               /\ d.ret[i].k = "pt" => PermV(doc.ret[i].p, sg) = d.ret[i].p
-      RetExs(sg, ta) == \A i \in DOMAIN d.ret : d.ret[i].k = "ex" => ExEq(doc.ret[i].e, d.ret[i].e, sg, ta)
+      \* a renaming = (sg on leaf points, ta on leaf expressions); points and the G part of an expression depend on
+      \* sg only, the F part on ta only: the candidates are filtered separately before the joint comparisons
+      RetP(sg) == /\ Len(doc.ret) = Len(d.ret)
+                  /\ \A i \in DOMAIN d.ret :
+                        /\ d.ret[i].k = doc.ret[i].k
+                        /\ d.ret[i].k = "pt" => PermV(doc.ret[i].p, sg) = d.ret[i].p
+                        /\ d.ret[i].k = "ex" => doc.ret[i].e.c = d.ret[i].e.c /\ PermG(doc.ret[i].e, sg) = d.ret[i].e.G
+      RetF(ta) == /\ Len(doc.ret) = Len(d.ret)
+                  /\ \A i \in DOMAIN d.ret : (d.ret[i].k = "ex" /\ doc.ret[i].k = "ex") => PermF(doc.ret[i].e, ta) = d.ret[i].e.F
       PS(s, sg, ta) == [x |-> PermV(s.x, sg), g |-> PermV(s.g, sg), f |-> PermEx(s.f, sg, ta)]
+      PSp(s, sg) == <<PermV(s.x, sg), PermV(s.g, sg), PermG(s.f, sg), s.f.c>>
+      OSp(o) == <<o.x, o.g, o.f.G, o.f.c>>
       DocS(f, sg, ta) == {PS(dNS[f][i], sg, ta) : i \in DOMAIN dNS[f]}
+      SampP(sg) == \A f \in 1..NF : /\ Len(dNS[f]) = Len(d.ns[f])
+                                      /\ {PSp(dNS[f][i], sg) : i \in DOMAIN dNS[f]} = {OSp(d.ns[f][i]) : i \in DOMAIN d.ns[f]}
+      SampF(ta) == \A f \in 1..NF : {PermF(dNS[f][i].f, ta) : i \in DOMAIN dNS[f]} = {d.ns[f][i].f.F : i \in DOMAIN d.ns[f]}
       SampOK(sg, ta) == \A f \in 1..NF : Len(dNS[f]) = Len(d.ns[f]) /\ DocS(f, sg, ta) = Range(d.ns[f])
+      SampPNoOwner(sg) == UNION {{PSp(dNS[f][i], sg) : i \in DOMAIN dNS[f]} : f \in 1..NF}
+                          = UNION {{OSp(d.ns[f][i]) : i \in DOMAIN d.ns[f]} : f \in 1..NF}
       SampNoOwner(sg, ta) == UNION {DocS(f, sg, ta) : f \in 1..NF} = UNION {Range(d.ns[f]) : f \in 1..NF}
       DocC(f, sg, ta) == NonTriv({NormForm(PermEx(dNC[f][i].e, sg, ta), dNC[f][i].sense) : i \in DOMAIN dNC[f]})
       ObsC(f) == NonTriv(NormSet(d.nc[f]))
@@ -68,17 +80,21 @@ Compare(pre, doc, d) ==
   IF d.exc # "" THEN {"raises"}
   ELSE IF pre.np + kp > dp \/ pre.ne + ke > de THEN {"machinery-dim"}
   ELSE IF d.stray # 0 THEN {"owner"}
-  ELSE IF RetPts(idp) /\ RetExs(idp, ide) /\ SampOK(idp, ide) /\ ConsOK(idp, ide) THEN extra
+  ELSE IF RetP(idp) /\ RetF(ide) /\ SampOK(idp, ide) /\ ConsOK(idp, ide) THEN extra
   ELSE
   LET SG == {ExtPerm(dp, Wp, pi) : pi \in Permutations(Wp)}
       TA == {ExtPerm(de, We, pi) : pi \in Permutations(We)}
-      SG1 == {sg \in SG : RetPts(sg)}
-      A1 == {a \in SG1 \X TA : RetExs(a[1], a[2])}
+      SG1 == {sg \in SG : RetP(sg)}
+      TA1 == {ta \in TA : RetF(ta)}
   IN
-  IF A1 = {} THEN {"returned"}
+  IF SG1 = {} \/ TA1 = {} THEN {"returned"}
   ELSE
-  LET A2 == {a \in A1 : SampOK(a[1], a[2])} IN
-  IF A2 = {} THEN (IF \E a \in A1 : SampNoOwner(a[1], a[2]) THEN {"owner"} ELSE {"samples"})
+  LET SG2 == {sg \in SG1 : SampP(sg)}
+      TA2 == {ta \in TA1 : SampF(ta)}
+      A2 == {a \in SG2 \X TA2 : SampOK(a[1], a[2])}
+  IN
+  IF A2 = {} THEN (IF \E sg \in {x \in SG1 : SampPNoOwner(x)} : \E ta \in TA1 : SampNoOwner(sg, ta)
+                   THEN {"owner"} ELSE {"samples"})
   ELSE IF \E a \in A2 : ConsOK(a[1], a[2]) THEN extra
   ELSE
   LET a == CHOOSE a \in A2 : \A b \in A2 : Diff(a) <= Diff(b)
